@@ -353,7 +353,9 @@ Example C15_ex_cached_ok :
 Proof.
   assert (Hc : cached_ok transfer bytes morpheus_action_parser (morpheus_auth_parser (fun _ => true)) ex_tx).
   { split; [vm_compute; reflexivity | split; [discriminate | vm_compute; reflexivity]]. }
-  split; [exact Hc|]. repeat split; try (vm_compute; reflexivity). repeat constructor; exact Hc.
+  split; [exact Hc|]. unfold valid_block_parts.
+  split; [reflexivity|]. split; [reflexivity|]. split; [reflexivity|]. split; [reflexivity|].
+  split; [|reflexivity]. constructor; [exact Hc|]. constructor; [exact Hc|]. constructor.
 Qed.
 
 (* a transaction produced by the Go code (work/C15_*/cases_0.v: chain.NewTransaction(...).Bytes(), one Transfer
@@ -371,7 +373,7 @@ Proof. vm_compute. reflexivity. Qed.
 (* the same transaction with one extra byte inside the Transfer (corpus case; accepted before fix 0b60f6b):
    a second encoding of the same parsed parts -- rejected *)
 Definition go_tx_trailing_in_action : bytes :=
-  firstn 52 go_tx_bytes ++ [50] ++ firstn 49 (skipn 53 go_tx_bytes) ++ [0] ++ skipn 102 go_tx_bytes.
+  firstn 53 go_tx_bytes ++ [50] ++ firstn 49 (skipn 54 go_tx_bytes) ++ [0] ++ skipn 103 go_tx_bytes.
 Example C15_ex_noncanonical_action_rejected :
   mdecode_tx (fun _ => true) go_tx_trailing_in_action = Err E_ACTION /\
   length go_tx_trailing_in_action = S (length go_tx_bytes).
